@@ -70,6 +70,11 @@ class C16(Prop):
     tie_modules = {
         # from_stream(_result) / from_future(_result): what is scheduled, the driver polls = streamSpec / tryStreamSpec
         "RxModel.GenTie.AsyncSources": [],
+        # merge_all: is_finished() of the outside AND of every inner observer = slot empty ∨ downstream finished
+        # (tie_MergeAll_is_finished; seed C16-9 answered the inner one from a memo)
+        "RxModel.GenTie.MergeAll": [], "RxModel.GenTie.MergeAllThreads": [],
+        # group_by's observers (is_finished of the outer observer and of a group's subscribers)
+        "RxModel.GenTie.GroupBy": [],
         "RxModel.GenTie.Fin.Map": ['map'],
         "RxModel.GenTie.Fin.MapTo": ['mapto'],
         "RxModel.GenTie.Fin.Filter": ['filter'],
@@ -227,7 +232,8 @@ class C16(Prop):
             out.append(Case("time", rng.choice(["local", "threads"]), [("pipe", [pipe])], evs,
                             {"kind": "iterator-second", "n": n, "op": k}))
         out += self.stream_cases(rng, tier)
-        return tg.with_units(seed, out) + self.nested_cases(random.Random(seed + 1616), tier)
+        return (tg.with_units(seed, out) + self.nested_cases(random.Random(seed + 1616), tier)
+                + self.inner_cases(random.Random(seed + 1617), tier))
 
     # ------------------------------------------------------------------ producers in a side branch of a tree
     def _wrap(self, rng, inner):
@@ -289,9 +295,91 @@ class C16(Prop):
                                         {"kind": "groupby-iter"}))
         return out
 
+    # ---- a producer INSIDE an inner observable of flat_map / concat_map / merge_all ---------------------------
+    SWALLOW = [["filter", "false"], ["skip", "1000"], ["ignore"], ["last"], ["skipwhile", "true"], ["bufcount", "1000"],
+               ["reduce", "add", "0"]]
+
+    def inner_cases(self, rng, tier):
+        """The producer (interval, counting iterator) sits in an inner observable started by flat_map / concat_map /
+        map + merge_all(n); everything it emits is swallowed on its way out of the inner chain; the stream is ended by
+        ANOTHER path (a take_until notifier behind the flattening operator, a `take` filled by the other branch of a
+        merge).  The inner observer must still answer is_finished() from the downstream: the interval retires at its next
+        tick, an iterator started after the end is not pulled at all.  No chain model for these shapes: implementation +
+        oracle only."""
+        out = []
+        reps = 60 if tier == "quick" else 600
+        for i in range(reps):
+            sw = rng.choice(self.SWALLOW)
+            how = rng.choice([["flatmap"], ["concatmap"], ["mergemap", "1"], ["mergemap", "2"], ["mergemap", "7"]])
+            mids = [rng.choice(MIDDLE) for _ in range(rng.randint(0, 2))]
+
+            def wrap(node):
+                for m in mids:
+                    node = m + [node]
+                return node
+            if i % 2 == 0:
+                p = rng.choice([1, 2])
+                inner = sw + [["interval", str(p)]]
+                flat = wrap(how + [inner, ["hot", "0"]])
+                if rng.random() < 0.5:
+                    pipe, ender = ["takeuntil", flat, ["hot", "1"]], ["emit", "1", sx.N(9)]
+                else:
+                    pipe, ender = ["take", "1", ["merge", flat, ["hot", "1"]]], ["emit", "1", sx.N(9)]
+                evs = [["sub"], ["emit", "0", sx.N(1)], ["run"]]
+                for _ in range(rng.randint(0, 2 * p + 1)):
+                    evs += [["adv", "1"], ["run"]]
+                if rng.random() < 0.4:
+                    evs += [["emit", "0", sx.N(2)], ["run"]]
+                evs += [ender, ["run"]]
+                for _ in range(2 * p + 3):
+                    evs += [["adv", "1"], ["run"]]
+                out.append(Case("time", rng.choice(["local", "threads"]), [("pipe", [pipe])], evs,
+                                {"kind": "inner-producer", "period": p}))
+            else:
+                inner = sw + [["iterc", str(rng.randint(5, 60))]]
+                flat = wrap(how + [inner, ["hot", "0"]])
+                pipe = rng.choice([["takeuntil", flat, ["hot", "1"]], ["take", "1", ["merge", flat, ["hot", "1"]]]])
+                evs = [["sub"], ["emit", "1", sx.N(9)], ["q", "pulls"], ["emit", "0", sx.N(1)], ["q", "pulls"],
+                       ["emit", "0", sx.N(2)], ["q", "pulls"]]
+                out.append(Case("pipe", rng.choice(["local", "threads"]), [("pipe", [pipe])], evs,
+                                {"kind": "inner-producer"}))
+        return out
+
+    def _is_inner(self, case):
+        f = case.field("pipe")
+        return bool(f) and bool(tg._heads_of(f[0], set()) & {"flatmap", "concatmap", "mergemap"})
+
+    def inner_oracle(self, case, lines):
+        heads = tg._heads_of(case.field("pipe")[0], set())
+        ended = None
+        for k, e in enumerate(case.events):
+            b = lines.get(k) or ""
+            if b in ("PANIC", "HANG"):
+                return {"kind": b.lower(), "event": k, "detail": b}
+            if b.startswith("o=") and ended is None and any(x in ("C",) or x.startswith("E") for x in tg.parse_suffix(b)[0]):
+                ended = k
+            if b.startswith("pulls=") and ended is not None and int(b[6:]) != 0:
+                return {"kind": "iterator-drained-inner", "event": k,
+                        "detail": f"{b}: the stream had ended (event {ended}) before the inner observable was started"}
+        if "interval" in heads and ended is not None:
+            p = int(case.meta.get("period") or 2)
+            last = None
+            for k, e in enumerate(case.events):
+                b = lines.get(k) or ""
+                if k > ended and b.startswith("o=") and e[0] == "run":
+                    _, kv = tg.parse_suffix(b)
+                    last = (k, kv.get("live", 0), kv.get("t", 0))
+            # the tail of the script advances 2p+3 > one period after the end and runs after every step
+            if last and last[1] != 0:
+                return {"kind": "producer-not-retired-inner", "event": last[0],
+                        "detail": f"still {last[1]} live task(s) at t={last[2]}; the stream ended in event {ended}"}
+        return None
+
     def compare_from(self, case):
         if case.suite == "groupby":
             return 0
+        if self._is_inner(case):
+            return len(case.events)
         if self._is_nested(case):
             return len(case.events)
         return 0
@@ -445,6 +533,8 @@ class C16(Prop):
         if case.suite == "groupby":
             return self.groupby_oracle(case, lines)
         kind = case.meta.get("kind", "")
+        if self._is_inner(case):
+            return self.inner_oracle(case, lines)
         if self._is_nested(case):
             return self.nested_oracle(case, lines)
         if kind == "stream" or self._src(case) in STREAMS:
